@@ -102,18 +102,23 @@ type Witness struct {
 }
 
 type Offer struct {
-	Block    string
+	Block     string
 	Stabilise bool
-	Note     string
+	Note      string
+	// Gossip: transactions (RLP hex) the victim's pool received before this offer, as from the network
+	Gossip []string `json:",omitempty"`
+	// PoolCheck: after this offer the victim's own miner selection is judged
+	PoolCheck bool `json:",omitempty"`
 }
 
 type env struct {
-	c    *run.Ctx
-	w    *fx.World
-	M, V *fx.Node
-	l    *ledger
-	wit  *Witness
-	accepted map[common.Hash]*types.Block
+	c             *run.Ctx
+	w             *fx.World
+	M, V          *fx.Node
+	l             *ledger
+	wit           *Witness
+	accepted      map[common.Hash]*types.Block
+	pendingGossip []string
 }
 
 func encBlock(b *types.Block) string {
@@ -188,7 +193,8 @@ func reencoding(tx *types.Transaction) string {
 
 // offer gives a block to the victim; accepted blocks are recorded and judged.
 func (e *env) offer(b *types.Block, note string, judge bool) bool {
-	e.wit.Offers = append(e.wit.Offers, Offer{Block: encBlock(b), Note: note})
+	e.wit.Offers = append(e.wit.Offers, Offer{Block: encBlock(b), Note: note, Gossip: e.pendingGossip})
+	e.pendingGossip = nil
 	e.c.WAL(e.wit)
 	err := e.V.Insert(b, false)
 	e.c.Stat("blocks_offered", 1)
@@ -209,6 +215,66 @@ func (e *env) stabilise(b *types.Block) {
 	}
 	e.V.Stabilise(b)
 	e.M.Stabilise(b)
+}
+
+// gossip puts a transaction into the victim's pool the way the network handler does (it asks the guard first).
+func (e *env) gossip(tx *types.Transaction) {
+	enc, _ := rlp.EncodeToBytes(tx)
+	e.pendingGossip = append(e.pendingGossip, hex.EncodeToString(enc))
+	if e.V.BC.TxGuard().ExistTx(e.V.BC.CurrentBlock().Hash(), tx) {
+		e.c.Stat("gossip_refused_by_guard", 1)
+		return
+	}
+	if e.V.Pool.AddTx(tx) == nil {
+		e.c.Stat("gossip_txs_pooled", 1)
+	}
+}
+
+// poolCheck judges what the victim's own miner would package now: MineBlock takes pool.GetTxs(header time) and hands
+// it to the assembler without consulting the replay guard, so a transaction (or a box around one) that is already on
+// the current branch must not be handed out by the pool. The selection is then mined through the assembler on the
+// victim's head and the block is judged like any accepted block.
+func (e *env) poolCheck(note string) {
+	if len(e.wit.Offers) > 0 {
+		e.wit.Offers[len(e.wit.Offers)-1].PoolCheck = true
+	}
+	head := e.V.BC.CurrentBlock()
+	t := head.Time() + 1
+	sel := e.V.Pool.GetTxs(t, params.MaxTxsForMiner)
+	e.c.Stat("own_miner_selections_judged", 1)
+	e.c.Stat("own_miner_selected_txs", int64(len(sel)))
+	for _, tx := range sel {
+		items := []struct {
+			tx    *types.Transaction
+			where string
+		}{{tx, "standalone"}}
+		if tx.Type() == params.BoxTx {
+			if bx, err := types.GetBox(tx.Data()); err == nil {
+				for _, s := range bx.SubTxList {
+					items = append(items, struct {
+						tx    *types.Transaction
+						where string
+					}{s, "box"})
+				}
+			}
+		}
+		for _, it := range items {
+			if prev, ok := e.l.find(head.Hash(), identity(it.tx)); ok {
+				e.c.Violation("C04/own-miner-offered-executed-tx:"+prev.where+"-then-"+it.where,
+					fmt.Sprintf("%s: the pool hands the node's own miner a transaction that was already executed on the current branch (%s there, %s now); MineBlock does not consult the replay guard", note, prev.where, it.where), e.wit)
+			}
+		}
+	}
+	if len(sel) == 0 {
+		return
+	}
+	res, err := e.V.Mine(head, t, sel, "own")
+	if err != nil {
+		e.c.Stat("own_miner_not_in_turn_or_failed", 1)
+		return
+	}
+	e.c.Stat("own_miner_blocks_judged", 1)
+	e.judge(res.Block, note+" / block of the node's own miner")
 }
 
 // attack mines (on the helper node, by the in-turn deputy) a block on parent at time t that carries the given
@@ -461,11 +527,164 @@ func scenario(c *run.Ctx, idx int, edge bool) {
 		map[string]interface{}{"deputies": nDep, "blocks": len(chain), "chain_time_span_s": span, "offers": len(e.wit.Offers), "edge": edge})
 }
 
+// forkSwitch: the victim follows one fork, then a longer one, possibly back again; the same signed transactions sit on
+// both forks in different placements (on their own, inside a box, inside different boxes, on one fork only) and part
+// of them also reached the victim's pool by gossip. After every accepted block the node's own miner selection is judged.
+func forkSwitch(c *run.Ctx, idx int) {
+	r := run.NewRng(c.Seed, 44, uint64(idx))
+	nDep := 3 + idx%3
+	wcfg := fx.WorldCfg{Deputies: nDep, Users: 8, SlotMs: 10000}
+	w := fx.NewWorld(wcfg)
+	wcfg.GenesisTime, wcfg.SlotMs = w.GenesisTime, w.SlotMs
+	dir := fx.ScratchDir("c04f")
+	M := w.NewNode(fx.PathOf(dir, "m"), w.Outsider)
+	V := w.NewNode(fx.PathOf(dir, "v"), w.Outsider)
+	defer func() { M.Destroy(); V.Destroy() }()
+	e := &env{c: c, w: w, M: M, V: V, l: newLedger(), wit: &Witness{World: wcfg}, accepted: map[common.Hash]*types.Block{}}
+	B := fx.TxB{W: w}
+	root := V.BC.Genesis()
+	t := root.Time() + 5
+	var fund types.Transactions
+	for i, u := range w.Users {
+		fund = append(fund, B.Transfer(w.Founder, u.Addr, fx.LEMO(100000), uint64(t)+1700+uint64(i)))
+	}
+	res, err := M.Mine(root, t, fund, "")
+	if err != nil || M.Insert(res.Block, true) != nil || !e.offer(res.Block, "funding", true) {
+		return
+	}
+	root = res.Block
+	e.stabilise(root)
+	// the transactions and their placement on the two forks: 0 absent, 1 on its own, 2 in box A, 3 in box B
+	nTx := r.Range(3, 7)
+	var txs []*types.Transaction
+	place := make([][2]int, nTx)
+	for i := 0; i < nTx; i++ {
+		from := w.Users[i%len(w.Users)]
+		txs = append(txs, B.Transfer(from, w.Users[(i+3)%len(w.Users)].Addr, fx.LEMO(int64(10+i)), uint64(root.Time())+1200+uint64(i)))
+		place[i] = [2]int{r.Intn(4), r.Intn(4)}
+		if place[i][0] == 0 && place[i][1] == 0 {
+			place[i][r.Intn(2)] = 1 + r.Intn(3)
+		}
+	}
+	shape := ""
+	for i := range place {
+		shape += fmt.Sprintf("%d%d,", place[i][0], place[i][1])
+	}
+	boxer := w.Users[7]
+	build := func(side int, parent *types.Block, n int, tag string) []*types.Block {
+		// distribute this side's items over n blocks
+		var items []*types.Transaction
+		var boxA, boxB types.Transactions
+		for i, tx := range txs {
+			switch place[i][side] {
+			case 1:
+				items = append(items, tx)
+			case 2:
+				boxA = append(boxA, tx)
+			case 3:
+				boxB = append(boxB, tx)
+			}
+		}
+		if len(boxA) > 0 {
+			items = append(items, B.Box(boxer, boxA, uint64(root.Time())+1100+uint64(side)))
+		}
+		if len(boxB) > 0 {
+			items = append(items, B.Box(boxer, boxB, uint64(root.Time())+1110+uint64(side)))
+		}
+		perm := r.Perm(len(items))
+		var out []*types.Block
+		cur := parent
+		for k := 0; k < n; k++ {
+			var cand types.Transactions
+			for j, pi := range perm {
+				if j%n == k {
+					cand = append(cand, items[pi])
+				}
+			}
+			bt := cur.Time() + uint32(r.Range(3, 12))
+			res, err := M.Mine(cur, bt, cand, fmt.Sprintf("%s%d", tag, k))
+			if err != nil {
+				c.Seen("fork_build_errors", "mine: "+err.Error())
+				return out
+			}
+			if err := M.Insert(res.Block, true); err != nil {
+				c.Seen("fork_build_errors", "insert: "+err.Error())
+				return out
+			}
+			out = append(out, res.Block)
+			cur = res.Block
+		}
+		return out
+	}
+	nX := r.Range(1, 3)
+	X := build(0, root, nX, "x")
+	Y := build(1, root, nX+r.Range(1, 2), "y")
+	if len(X) == 0 || len(Y) <= len(X) {
+		c.Stat("fork_material_not_built", 1)
+		return
+	}
+	// part of the transactions arrive by gossip first
+	for _, tx := range txs {
+		if r.Chance(1, 2) {
+			e.gossip(tx)
+		}
+	}
+	switches := 0
+	deliver := func(bs []*types.Block, note string) bool {
+		for i, b := range bs {
+			before := V.BC.CurrentBlock()
+			if !e.offer(b, fmt.Sprintf("%s #%d", note, i), true) {
+				c.Note("victim rejected a fork block: " + note)
+				return false
+			}
+			after := V.BC.CurrentBlock()
+			if after.Hash() != before.Hash() && after.ParentHash() != before.Hash() {
+				switches++
+				c.Stat("fork_switches", 1)
+			}
+			e.poolCheck(fmt.Sprintf("after %s #%d", note, i))
+		}
+		return true
+	}
+	if !deliver(X, "fork x") || !deliver(Y, "fork y") {
+		return
+	}
+	if r.Chance(1, 2) {
+		// fork x grows past fork y: switch back (empty blocks and late gossip)
+		for _, tx := range txs {
+			if r.Chance(1, 4) {
+				e.gossip(tx)
+			}
+		}
+		cur := X[len(X)-1]
+		var more []*types.Block
+		for k := 0; k < len(Y)-len(X)+1; k++ {
+			res, err := M.Mine(cur, cur.Time()+uint32(r.Range(3, 12)), nil, fmt.Sprintf("xx%d", k))
+			if err != nil || M.Insert(res.Block, true) != nil {
+				break
+			}
+			more = append(more, res.Block)
+			cur = res.Block
+		}
+		if !deliver(more, "fork x again") {
+			return
+		}
+	}
+	c.Case(fmt.Sprintf("forkswitch n%d x%d y%d %s", nDep, len(X), len(Y), shape), switches > 0, map[string]interface{}{"deputies": nDep, "fork_x": len(X), "fork_y": len(Y), "placements": shape, "switches": switches})
+}
+
 func runAll(c *run.Ctx) {
 	fx.Quiet()
 	scn.SetParams()
 	if c.Batch < 2 {
 		scenario(c, c.Batch, true)
+	}
+	{
+		n := c.Pick(96, 2400)
+		lo, hi := c.Share(n)
+		for i := lo; i < hi; i++ {
+			forkSwitch(c, i)
+		}
 	}
 	n := c.Pick(64, 1600)
 	lo, hi := c.Share(n)
@@ -502,6 +721,13 @@ func replay(c *run.Ctx, raw json.RawMessage) {
 				}
 			}
 		}
+		for _, g := range o.Gossip {
+			rawt, _ := hex.DecodeString(g)
+			tx := new(types.Transaction)
+			if err := rlp.DecodeBytes(rawt, tx); err == nil {
+				e.gossip(tx)
+			}
+		}
 		rawb, _ := hex.DecodeString(o.Block)
 		b := new(types.Block)
 		if err := rlp.DecodeBytes(rawb, b); err != nil {
@@ -512,6 +738,9 @@ func replay(c *run.Ctx, raw json.RawMessage) {
 			if o.Stabilise {
 				V.Stabilise(b)
 			}
+		}
+		if o.PoolCheck {
+			e.poolCheck(o.Note)
 		}
 	}
 	c.Case("replay", true, nil)
